@@ -132,7 +132,16 @@ class TruncatedGaussianMeasure:
         Returns:
             The normalizing constant of the measure.
         """
-        return jnp.squeeze(normal_cdf(self.beta) - normal_cdf(self.alpha), axis=-1)
+        return jnp.squeeze(self._cdf_difference(self.alpha, self.beta), axis=-1)
+
+    @staticmethod
+    def _cdf_difference(alpha, beta):
+        """Phi(beta) - Phi(alpha); evaluated as Phi(-alpha) - Phi(-beta) in the upper tail, where
+        the direct difference cancels to zero."""
+        upper_tail = alpha > 0
+        lo = jnp.where(upper_tail, -beta, alpha)
+        hi = jnp.where(upper_tail, -alpha, beta)
+        return normal_cdf(hi) - normal_cdf(lo)
 
     def integral(self) -> Float[Array, "R"]:
         """Compute the integral of the truncated Gaussian measure.
@@ -204,7 +213,7 @@ class TruncatedGaussianMeasure:
         Returns:
             The moment of `order`.
         """
-        denominator = normal_cdf(self.beta[:, 0]) - normal_cdf(self.alpha[:, 0])
+        denominator = self._cdf_difference(self.alpha[:, 0], self.beta[:, 0])
         denominator = jnp.where(denominator != 0, denominator, 1.0)
 
         def scan_function(carry, k):
